@@ -305,7 +305,10 @@ class Interleaver:
     def send(self, name, data):
         """Deliver bytes, let the handler run until it parks again; returns the bytes it wrote."""
         c = self.conns[name]
-        c["client"].sendall(data)
+        try:
+            c["client"].sendall(data)
+        except OSError:
+            return self._drain(c)       # the server already closed this connection
         import time
         time.sleep(0.0005)
         # the handler leaves recv, works, and parks again (or finishes)
